@@ -97,6 +97,7 @@ def documents(ctx, big=False):
     for n in ((30, 150) if q else (30, 150, 400)):
         docs += pumps(ctx, n)
     docs += deep_pumps(ctx)
+    docs += gen.slot_sweep()
     return docs
 
 
